@@ -8,7 +8,7 @@ LEAN_MODULE = "Frost.Props.C15"
 THEOREMS = ["Frost.C15.nonceNew_eq", "Frost.C15.commit_draws", "Frost.C15.preprocess_draws",
             "Frost.C15.commit_needs_64", "Frost.C15.noncePreimage_injective",
             "Frost.C15.commitment_nonzero_of_nonce_nonzero"]
-RULE = ("one case = one commit / preprocess(k) call (suite, signing share, tape kind random|constant|repeating, k in {0,1,2,255}) with its checks; "
+RULE = ("one case = one commit / preprocess(k) call (suite, signing share, tape kind random|constant|repeating|all-zero|one zero block|two equal blocks, k in {0,1,2,255}) with its checks; "
         "non-trivial = the call drew from the tape and returned nonces whose derivation was recomputed independently; distinct = hash of the request")
 ASSUMPTIONS = ["'nonces differ' and 'never zero' need H3 collision-freeness and H3 != 0 (2^-252); named, not proved. On toy16 a zero nonce can occur and code = model",
                "the independent H3 for the oracle is python hashlib (SHA-512, SHAKE256, SHA-256 expand_message_xmd) and FNV-1a for the toy suites"]
@@ -42,6 +42,19 @@ def one(sess, suite, kind, k):
         tb = rng.randbytes(need + 16)
     elif kind == "constant":
         tb = bytes([rng.randrange(256)]) * (need + 16)
+    elif kind == "zeros":
+        tb = bytes(need + 16)
+    elif kind == "zero-block":
+        # one aligned 32-byte draw is all zero (an RNG that delivered nothing once): still exactly one draw per nonce
+        blocks = [rng.randbytes(32) for _ in range(need // 32)]
+        blocks[rng.randrange(len(blocks))] = bytes(32)
+        tb = b"".join(blocks) + rng.randbytes(16)
+    elif kind == "equal-blocks":
+        # two consecutive aligned draws deliver the same bytes (hiding and binding randomness equal), then fresh bytes
+        blocks = [rng.randbytes(32) for _ in range(need // 32)]
+        j = 2 * rng.randrange(len(blocks) // 2)
+        blocks[j + 1] = blocks[j]
+        tb = b"".join(blocks) + rng.randbytes(16)
     else:
         per = rng.randbytes(rng.choice([1, 7, 32, 33]))
         tb = (per * (need // len(per) + 2))[:need + 16]
@@ -75,9 +88,11 @@ def generate(sess):
     rng = sess.rng
     thorough = sess.tier != "quick"
     for suite in TOY_SUITES + REAL_SUITES:
-        for kind in ("random", "constant", "repeating"):
+        for kind in ("random", "constant", "repeating", "zeros", "zero-block", "equal-blocks"):
             for k in (None, 0, 1, 2, 255):
                 if k == 255 and suite in REAL_SUITES and not thorough and kind != "random":
+                    continue
+                if k == 0 and kind in ("zero-block", "equal-blocks"):
                     continue
                 for _ in range(3 if thorough else 1):
                     one(sess, suite, kind, k)
